@@ -73,10 +73,44 @@ Theorem C11_flush : forall w : world V, In (ORes true) (snd (step w EEnd)) ->
 Proof. exact (@poll_flush V). Qed.
 
 (* ... so that along EVERY history the cache holds, for every name, the version and bytes the
-   store yields (c = cache contents before the run, agreeing with the store). *)
-Theorem C11_cache_exact : forall evs (w : world V) c, Inv (wst w) -> (forall n, doc_vv c n = vv (wst w) n) ->
+   store yields (c = cache contents before the run, agreeing with the store) - as long as no
+   Cache.Write fails (`EEndF`, below). *)
+Theorem C11_cache_exact : forall evs (w : world V) c, (forall e, In e evs -> e <> EEndF) ->
+  Inv (wst w) -> (forall n, doc_vv c n = vv (wst w) n) ->
   forall n, doc_vv (cache_after c (concat (snd (run w evs)))) n = vv (wst (fst (run w evs))) n.
 Proof. exact (@cache_tracks V). Qed.
+
+(* ... and EVERY Cache.Write, by whatever step of whatever history, carries the document of the
+   store state at that write (the write is part of the locked step that changed the state), so
+   writes and installs are totally ordered: the last document written is never older than an
+   install that preceded it. *)
+Theorem C11_writes_are_state_docs : forall (w : world V) e d, In (OFlush d) (snd (step w e)) ->
+  d = doc (wst (fst (step w e))).
+Proof. exact (@writes_are_state_docs V). Qed.
+
+Theorem C11_writes_in_history : forall (w : world V) evs1 e d, In (OFlush d) (snd (step (run_w w evs1) e)) ->
+  d = doc (wst (run_w w (evs1 ++ [e]))).
+Proof. exact (@writes_in_history V). Qed.
+
+(* A FAILING Cache.Write.  The outcome of the write of applyUpdates is an input (`EEndF` = the
+   end of a poll whose write, if one is attempted, fails).  It does not influence the store: the
+   world after EEndF is the world after EEnd, so every statement above about the store after a poll
+   holds for it.  What a non-nil Refresh result then means: either no write was attempted and the
+   outputs are those of EEnd (an error = the poll failed, nothing applied, C11_all_or_nothing), or
+   the poll SUCCEEDED and installed everything, its write - the document of that new state - failed
+   (nothing reaches the cache), and every caller still waiting gets an error (store.go:299-301
+   returns applyUpdates' error although the values were installed). *)
+Theorem C11_write_failure : forall w : world V,
+  fst (step w EEndF) = fst (step w EEnd) /\
+  ((snd (step w EEndF) = snd (step w EEnd) /\ forall d, ~ In (OFlush d) (snd (step w EEnd)))
+   \/ (snd (step w EEndF) = map (@failw V) (snd (step w EEnd)) /\
+       exists d, In (OFlush d) (snd (step w EEnd)) /\ d = doc (wst (fst (step w EEnd))) /\
+                 forall b, In (ORes b) (snd (step w EEnd)) -> b = true)).
+Proof. exact (@write_failure_meaning V). Qed.
+
+Theorem C11_failed_write_doc : forall (w : world V) d,
+  In (OFlushF d) (snd (step w EEndF)) -> d = doc (wst (fst (step w EEndF))).
+Proof. exact (@failed_write_doc V). Qed.
 
 (* FAILURE.  If any caller of a poll got an error, the store is exactly what it was and nothing
    was written: every secret still yields the (really served) value it yielded before. *)
@@ -176,7 +210,35 @@ Theorem C11_cadence_monitor : forall (i t0 : Z) l, cadence_ok i t0 l = true ->
             forall k, (k < length l)%nat -> nth k l 0%Z = tick t0 (period i r) k.
 Proof. exact cadence_sound. Qed.
 
+(* POLLS THAT TAKE TIME.  With time.Ticker semantics (fixed grid, one buffered tick, Done a no-op)
+   and every poll shorter than the period, the k-th poll starts at t0 + k*period exactly, whatever
+   the durations ... *)
+Theorem C11_cadence_regular : forall (t0 p : Z) ds, (0 < p)%Z -> (forall d, In d ds -> (0 <= d < p)%Z) ->
+  forall k, (k <= length ds)%nat -> nth k (starts t0 p ds) 0%Z = tick t0 p k.
+Proof. exact starts_regular. Qed.
+
+(* ... and the monitor evaluated on observed (start, end) instants of consecutive polls accepts
+   only: an admissible period, start instants exactly those of such a loop for the observed
+   durations (a poll longer than the period is followed immediately by the next one), hence on the
+   grid t0 + k*period, one period apart, while the polls are shorter than the period. *)
+Theorem C11_cadence_slow_monitor : forall (i t0 : Z) l, cadence2_ok i t0 l = true ->
+  exists r, (0 <= r < jitter_bound i)%Z /\ (9 * i <= 10 * period i r <= 11 * i)%Z /\
+    match l with
+    | [] => False
+    | (s1, e1) :: rest =>
+      map fst l = starts t0 (period i r) (durs_init s1 e1 rest) /\
+      ((forall d, In d (durs_init s1 e1 rest) -> (0 <= d < period i r)%Z) ->
+       forall k, (k < length l)%nat -> nth k (map fst l) 0%Z = tick t0 (period i r) k)
+    end.
+Proof. exact cadence2_sound. Qed.
+
 Print Assumptions C11_fresh.
+Print Assumptions C11_writes_are_state_docs.
+Print Assumptions C11_write_failure.
+Print Assumptions C11_failed_write_doc.
+Print Assumptions C11_writes_in_history.
+Print Assumptions C11_cadence_regular.
+Print Assumptions C11_cadence_slow_monitor.
 Print Assumptions C11_fresh_exact.
 Print Assumptions C11_instant.
 Print Assumptions C11_requests_all.
@@ -233,3 +295,17 @@ Example ex_cad_ok : cadence_ok 3600 0 [3400; 6800; 10200]%Z = true. Proof. refle
 Example ex_cad_bad1 : cadence_ok 3600 0 [5400; 10800]%Z = false. Proof. reflexivity. Qed.
 Example ex_cad_bad2 : cadence_ok 3600 0 [3400; 6800; 10300]%Z = false. Proof. reflexivity. Qed.
 Example ex_jitter : period_ok 15 14 = true /\ period_ok 15 17 = false. Proof. split; reflexivity. Qed.
+
+(* slow polls: period 3400 for interval 3600; polls lasting 1200, 30, 4000 (longer than a period:
+   the next poll starts the moment it ends, the one after is back on the grid) *)
+Example ex_cad2_ok : cadence2_ok 3600 0 [(3400, 4600); (6800, 6830); (10200, 14200); (14200, 14300); (17000, 17001)]%Z = true.
+Proof. reflexivity. Qed.
+(* a ticker re-armed after each poll: the gap is period + duration *)
+Example ex_cad2_rearmed : cadence2_ok 3600 0 [(3400, 4600); (8000, 8030)]%Z = false. Proof. reflexivity. Qed.
+Example ex_starts : starts 0 3400 [1200; 30; 4000; 100]%Z = [3400; 6800; 10200; 14200; 17000]%Z. Proof. reflexivity. Qed.
+
+(* the write of a successful poll fails: b IS installed, both callers get an error, nothing reaches the cache *)
+Example ex_write_fails : snd (step ex_wk EEndF) =
+    [OFlushF [(ex_a, Some (1, 10, 946684800%Z)); (ex_b, Some (2, 21, 946684800%Z))]; ORes false; ORes false]
+  /\ vv (wst (fst (step ex_wk EEndF))) ex_b = Some (2, 21).
+Proof. vm_compute. split; reflexivity. Qed.
